@@ -98,6 +98,26 @@ def run(ctx):
       ctx.sample(dict(estimator=name, params=opt, components_shape=list(L.shape)), limit=5)
   # ---- an SPD array given in single precision (kept as such: the solver then iterates in float32 and its result is PSD only up to
   # float32 rounding): fit still returns a finite model of the right shape, for several iteration budgets
+  # corpus: finding F25 (a single-precision prior made ITML iterate in float32 and drift out of the PSD cone: NonPSDError)
+  import json, os
+  cpath = os.path.join(os.path.dirname(os.path.dirname(os.path.dirname(os.path.abspath(__file__)))), 'corpus', 'F25_itml_float32_prior.json')
+  c25 = json.load(open(cpath))
+  from metric_learn import ITML_Supervised
+  ctx.count('corpus_F25', 1)
+  try:
+    with warnings.catch_warnings():
+      warnings.simplefilter('ignore')
+      e25 = ITML_Supervised(prior=np.array(c25['prior'], dtype=np.float32), max_iter=30, n_constraints=28, random_state=0).fit(
+          np.array(c25['X']), np.array(c25['y']))
+    M25 = e25.get_mahalanobis_matrix()
+    w25 = np.linalg.eigvalsh((M25 + M25.T) / 2)
+    if not np.isfinite(M25).all() or w25.min() < -1e-10 * max(1.0, np.abs(w25).max()):
+      ctx.fail_input('valid_model', 'ITML_Supervised with a float32 SPD prior: M is not PSD', dict(corpus='corpus/F25_itml_float32_prior.json'),
+                     observed=w25.tolist())
+  except Exception as ex:
+    ctx.fail_input('fit_runs', 'ITML_Supervised with an SPD prior of dtype float32 raises %s' % type(ex).__name__,
+                   dict(corpus='corpus/F25_itml_float32_prior.json', estimator='ITML_Supervised', max_iter=30, n_constraints=28, random_state=0),
+                   observed=str(ex)[:200])
   for name in ('MMC', 'MMC_Supervised', 'ITML', 'LSML'):
     for rep in range(4 if thorough else 2):
       data = fits.make_data(ctx.rng, d=int(ctx.rng.integers(2, 5)))
